@@ -1,5 +1,6 @@
 import FordModel.Proto
 import FordModel.Graph
+import FordModel.GraphLabel
 namespace Ford
 open Proto Graph
 
@@ -144,6 +145,18 @@ def dispatchC13 : List Str → Option (List Str)
           let cfg : Cfg := { succ := succOf tab nd c, nested := c.nested, filterAdded := c.filterAdded false,
                              maxNesting := natOf mn, maxNodes := natOf mx }
           some ["ok".toList, showGraph false tab rs cls (runGraph cfg rs)]
+      | _ => some ["bad-request".toList]
+    else if cmd == "c13.complabels".toList then
+      -- c13.complabels <component prototypes in declaration order>
+      -- -> the dict `comp_types` of the new node in insertion order (`t:i.j,...`: label of `t` = positions i, j)
+      --    and, for each of its keys, the entry `comp_of[new node]` of that node
+      match args with
+      | comps :: _ =>
+        let cs := natList comps
+        let d := compLoop cs 0 []
+        let showLabel := fun (k : Nat) (l : List Nat) => showNat k ++ [':'] ++ joinSep '.' (l.map showNat)
+        some ["ok".toList, joinSep ',' (d.map fun (k, l) => showLabel k l),
+              joinSep ',' (d.map fun (k, _) => showLabel k (compOfLoop k cs 0 []))]
       | _ => some ["bad-request".toList]
     else none
   | [] => none
